@@ -42,6 +42,13 @@ theorem no_quote_table_safe :
   refine ⟨by decide, ?_⟩
   decide +kernel
 
+/-- The per-character tables describe the live regexes completely: the no-quote pattern is a single
+character class under `*` applied with `fullmatch`, the slash pattern a single class applied per byte
+with `sub` (checked by the translator on the parsed patterns and on `dump_cookie`'s AST). -/
+theorem regex_shapes :
+    Gen.Cookie.noQuoteIsClassStar = true ∧ Gen.Cookie.slashIsClass = true ∧
+    Gen.Cookie.dumpUsesFullmatchAndSub = true := by decide
+
 /-- The `safe=` set that `dump_cookie` passes to `urllib.parse.quote` for the Path attribute contains
 none of the characters that could end the attribute or the header line (`;`, `,`, SP, `"`, `\`,
 controls, non-ASCII): with `quote` percent-encoding everything outside `safe` ∪ unreserved
